@@ -26,9 +26,10 @@ VARIABLES l,      \* next line
           viol, drift
 vars == <<l, s, l1, mon, blk, mp, prev, rolled, tampered, hsin, viol, drift>>
 
-NoCfg  == [maxh |-> 0, txs |-> << >>, vu |-> << >>, pu |-> << >>, retain |-> << >>, hashc |-> TRUE, ih |-> 1]
+NoCfg  == [maxh |-> 0, txs |-> << >>, vu |-> << >>, pu |-> << >>, retain |-> << >>, hashc |-> TRUE, ih |-> 1, discard |-> FALSE]
 MpInit == [locked |-> FALSE, flushed |-> FALSE]
 Post0  == [bs_h |-> 0, bs_base |-> 0, ss_saved |-> FALSE, ss_h |-> 0, ss_hash |-> Hash0, ss_last |-> 0,
+           ss_lhvc |-> 0, ss_lhpc |-> 0, ss_pid |-> 0, ss_appv |-> 0, ss_nv |-> 0,
            app_h |-> 0, app_hash |-> Hash0, wal_end |-> 0]
 
 Init == /\ l = 1 /\ s = InitState(NoCfg) /\ l1 = FALSE /\ mon = MonInit /\ blk = << >> /\ mp = MpInit
@@ -40,6 +41,10 @@ MaxEnd(w, k) == IF k = 0 THEN 0
                 ELSE LET r == MaxEnd(w, k - 1) IN IF w[k].t = "end" /\ w[k].h > r THEN w[k].h ELSE r
 Proj(x) == [bs_h |-> x.bs_h, bs_base |-> x.bs_base, ss_saved |-> x.ss_saved, ss_h |-> x.ss_st.h,
             ss_hash |-> x.ss_st.hash, ss_last |-> x.ss_last.h, app_h |-> x.app_h, app_hash |-> x.app_hash,
+            ss_lhvc |-> IF x.ss_saved THEN x.ss_st.lhvc ELSE 0, ss_lhpc |-> IF x.ss_saved THEN x.ss_st.lhpc ELSE 0,
+            ss_pid |-> IF x.ss_saved THEN x.ss_st.pid ELSE 0,
+            ss_appv |-> IF x.ss_saved THEN AppVersionOf(x.ss_st.pid) ELSE 0,
+            ss_nv |-> IF x.ss_saved THEN x.ss_st.nv ELSE 0,
             wal_end |-> MaxEnd(x.wal, Len(x.wal))]
 
 \* ------------------------------------------------------------------ level 1: which observable operation is next
@@ -122,8 +127,21 @@ CursorClass(p) == IF tampered THEN ""
 
 \* invariants on a logged projection, checked after every line; a failure is reported at the
 \* step that breaks the invariant (not again on every later line while the state stays broken)
+\* The saved sm.State against the chain's state for its height = what an uncrashed ApplyBlock computes,
+\* which the spec prescribes from the chain plan (StateAfter): "" or the first field that differs
+StateClass(p) ==
+  IF ~p.ss_saved THEN ""
+  ELSE LET t == StateAfter(s.cfg, p.ss_h) IN
+       IF p.ss_pid # t.pid THEN "consensus_params"
+       ELSE IF p.ss_lhpc # t.lhpc THEN "last_height_consensus_params_changed"
+       ELSE IF p.ss_appv # AppVersionOf(t.pid) THEN "app_version"
+       ELSE IF p.ss_nv # t.nv THEN "next_validators"
+       ELSE IF p.ss_lhvc # t.lhvc THEN "last_height_validators_changed"
+       ELSE IF ~tampered /\ p.ss_hash # t.hash THEN "app_hash" ELSE ""
+
 PostBad(p) ==
   (IF CursorClass(p) # "" THEN {<<"CursorsWithinOne", CursorClass(p)>>} ELSE {})
+  \cup (IF StateClass(p) # "" THEN {<<"StateIsChainState", "saved_state_differs_from_chain:" \o StateClass(p)>>} ELSE {})
   \cup (IF p.wal_end > p.bs_h THEN {<<"WalEndImpliesStored", "endheight_before_block_saved">>} ELSE {})
 PostViol(p) == {V(x[1], x[2]) : x \in PostBad(p) \ PostBad(prev)}
 
